@@ -1781,3 +1781,50 @@ def ddnnf_eval_replay(cases):
             rec["site"] = traceback.extract_tb(ex.__traceback__)[-1].name
         out.append(rec)
     return {"results": out}
+
+
+def adconstraint_replay(cases):
+    """Spec -> code replay for ADConstraint.tla: the heads of one annotated disjunction are added to a real LogicFormula, some
+    before evidence values exist, the others afterwards (lookup_evidence set, optionally a semiring = propagate_weights)."""
+    from problog.formula import LogicFormula
+    from problog.evaluator import SemiringProbability
+    from problog.logic import Term, Constant
+    out = []
+    for c in cases:
+        rec = {"id": c["id"]}
+        try:
+            f = LogicFormula()
+            K = len(c["w"])
+            grp = (7, ())
+            node_of = {}
+
+            def add(h):
+                return f.add_atom((7, (), h), c["w"][h - 1] / 10.0, group=grp, name=Term("h", Constant(h)))
+            for h in range(1, K + 1):
+                if c["pre"][h - 1]:
+                    node_of[h] = add(h)
+            f.lookup_evidence = {}
+            for h in range(1, K + 1):
+                if c["evv0"][h - 1]:
+                    f.lookup_evidence[node_of[h]] = 0 if c["evv0"][h - 1] == "T" else None
+            if c["sr"]:
+                f.semiring = SemiringProbability()
+            ret = [""] * K
+            for h in c["order"]:
+                r = add(h)
+                if r is None:
+                    ret[h - 1] = "F"
+                elif r == 0:
+                    ret[h - 1] = "T"
+                else:
+                    node_of[h] = r
+            evv = [""] * K
+            for h, n in node_of.items():
+                if n in f.lookup_evidence:
+                    v = f.lookup_evidence[n]
+                    evv[h - 1] = "T" if v == 0 else ("F" if v is None else "?")
+            rec["evv"], rec["ret"] = evv, ret
+        except Exception as e:       # noqa
+            rec["error"] = "%s: %s" % (type(e).__name__, e)
+        out.append(rec)
+    return {"results": out}
